@@ -20,11 +20,15 @@ fn c18_sc_transmit() {
     let ts = fdl.parameters().address;
     let mut l = any_scanner();
     let (cursor0, done0, st0) = (l.cursor, l.current_address_done, l.stations.data);
+    let ev0 = l.pending_event.clone();
     let mut buf = [0u8; 256];
     let hp = if kani::any() { crate::fdl::HighPrioOnly::Yes } else { crate::fdl::HighPrioOnly::No };
     let r = l.transmit_telegram(vk_any_instant(), &fdl, crate::fdl::TelegramTx::new(&mut buf), hp);
     assert!(l.cursor <= 125);
     assert!(l.stations.data == st0);
+    // C18.events: an event that has not been taken yet survives the next request (a time-out and the following
+    // transmit happen in the same poll, before the user can take the event) - also across the wrap-around
+    assert!(l.pending_event == ev0);
     if done0 {
         kani::cover!(cursor0 == 125);
         assert!(r.is_none() && !l.current_address_done);
